@@ -24,7 +24,8 @@ def gen_store_faults(rng, world, p=0.5):
     return out
 
 
-def gen_history(seed, tier, *, n_ops=(2, 6), genkw=None, allow=("run", "fail", "cut", "update", "delete", "fresh", "intr"),
+def gen_history(seed, tier, *, n_ops=(2, 6), genkw=None,
+                allow=("run", "fail", "cut", "update", "delete", "fresh", "intr", "bump"),
                 final_run=True):
     rng = worldgen.child_rng(seed, "history")
     kw = dict(SIZES[tier])
@@ -37,7 +38,8 @@ def gen_history(seed, tier, *, n_ops=(2, 6), genkw=None, allow=("run", "fail", "
     fed = {sd["feeds"] for sd in world["stores"].values() if sd.get("feeds")}
     deletable = [n["store"] for n in world["nodes"] if n.get("store") and n["store"] not in pure and n["store"] not in fed]
     ops = []
-    weights = dict(run=4, fail=2, cut=2, update=2, delete=2, fresh=1, intr=1)
+    weights = dict(run=4, fail=2, cut=2, update=2, delete=2, fresh=1, intr=1, bump=2)
+    bumpable = [n["id"] for n in world["nodes"] if n["kind"] == "call" and n.get("store") and n["store"] in deletable]
     kinds = [k for k in allow for _ in range(weights[k])]
     for _ in range(rng.randrange(*n_ops)):
         k = rng.choice(kinds)
@@ -61,6 +63,8 @@ def gen_history(seed, tier, *, n_ops=(2, 6), genkw=None, allow=("run", "fail", "
             ops.append(dict(op="delete", store=rng.choice(deletable)))
         elif k == "fresh":
             ops.append(dict(op="fresh"))
+        elif k == "bump" and bumpable:
+            ops.append(dict(op="bump", node=rng.choice(bumpable)))
     if final_run:
         ops.append(dict(op="run", cfg=_cfg(rng, world), final=True))
     return dict(seed=seed, world=world, ops=ops, sched=sc), rng
@@ -95,7 +99,7 @@ def exec_generic(prop, desc):
     for idx, op in enumerate(desc["ops"]):
         rec = machine.apply_op(hist, op, idx, tape=tapes.get(str(idx)))
         if rec is not None:
-            viol.extend(ORACLES[prop](rec, desc["world"], hist))
+            viol.extend(ORACLES[prop](rec, hist.world, hist))
             if viol:
                 break
     return result(desc, hist, viol)
@@ -113,7 +117,25 @@ def o_c03(rec, world, hist):
 
 # ---- C05 -------------------------------------------------------------------
 def gen_c05(seed, tier):
-    desc, rng = gen_history(seed, tier)
+    if seed % 2 == 0:
+        # stress the (multi-threaded) stale check itself: several sources and stored fan-in nodes, source updates
+        # that make exactly one predecessor newer, >= 2 stale-check workers, instruction-level pre-emption inside
+        # the transformation code, frequent switches
+        desc, rng = gen_history(seed, tier, n_ops=(2, 5), allow=("run", "update", "update", "delete"),
+                                genkw=dict(p_src=0.5, p_stored=0.6, p_depsrc=0.05, p_fed=0.05, p_nested=0.1, p_lit=0.02,
+                                           durs=(0.0,), max_fan_in=3, n_min=3, n_max=8))
+        for op in desc["ops"]:
+            if op["op"] == "run":
+                op["cfg"]["stale_workers"] = rng.choice([2, 3, 4])
+                op["cfg"]["max_workers"] = rng.choice([2, 3])
+                # (the history before the run under test only has to produce store states: cheap schedules)
+                op["sched"] = dict(strategy=["rtb"], gran="sync", salt=desc["sched"]["salt"])
+        final = desc["ops"][-1]
+        final["sched"] = dict(strategy=rng.choice([["rw", 0.05, 0.5], ["rw", 0.1, 0.5], ["rw", 0.2, 0.5], ["rw", 0.3, 0.5],
+                                                   ["pct", 30, 1500], ["pct", 10, 600, 1]]),
+                              gran="opcode+", salt=desc["sched"]["salt"])
+    else:
+        desc, rng = gen_history(seed, tier)
     # the run under test and its immediate repetition are fault-free
     desc["ops"].append(dict(op="run", cfg=dict(desc["ops"][-1]["cfg"], output=False), repeat=True))
     return desc
@@ -183,8 +205,8 @@ def exec_c14(prop, desc):
     import uberjob
     from model.core import canon, typed_equal
 
-    world = desc["world"]
     hist = machine.History(desc)
+    world = hist.world
     hist.init_sources()
     tapes = desc.get("tapes") or {}
     viol = []
